@@ -73,6 +73,15 @@ Definition chk_chol (c : chol_case) : bool :=
   let '(n, L, Lbar, A, tol) := c in
   fclose_list tol (concat (f_chol_backward n L Lbar)) (concat A) &&
   Nat.eqb (length (concat A)) (n * n).
+(* AddJitterOp forward with forced retries: n, x, sigsq_init, initial jitter, growth, outcome of each Cholesky
+   attempt (observed independently by the harness), implementation's output, tolerance *)
+Definition jfwd_case := (nat * fmat * float * float * float * list bool * fmat * float)%type.
+Definition chk_jfwd (c : jfwd_case) : bool :=
+  let '(n, X, sigsq, init, growth, oracle, out, tol) := c in
+  match f_addjitter_op n X sigsq init growth oracle with
+  | Some A => fclose_list tol (concat A) (concat out) && Nat.eqb (length (concat out)) (n * n)
+  | None => false
+  end.
 (* n, G, implementation's vjp output (flattened g ++ [sum diag g]), tolerance *)
 Definition jit_case := (nat * fmat * list float * float)%type.
 Definition chk_jit (c : jit_case) : bool :=
@@ -516,6 +525,193 @@ def run_chol(ctx, specs):
 
 
 # --------------------------------------------------------------------------
+# AddJitterOp with the retry loop FORCED (first Cholesky attempts fail)
+# --------------------------------------------------------------------------
+def gen_jitter_spec(rng):
+    n = rng.choice([2, 3, 4, 5, 6, 8])
+    return dict(n=n, seed=rng.randrange(10 ** 6), delta=10 ** rng.uniform(-10, -6), scale=rng.choice([1.0, 1.0, 30.0, 0.2]),
+                sig_frac=rng.choice([rng.uniform(0.01, 0.5), rng.uniform(0.01, 0.5), 1e-4, 0.0]))
+
+
+def jitter_matrix(spec):
+    """symmetric x with smallest eigenvalue -delta * lambda_max (slightly indefinite), and sigsq_init < delta * lambda_max"""
+    rs = np.random.RandomState(spec["seed"])
+    n = spec["n"]
+    Q, _ = np.linalg.qr(rs.normal(size=(n, n)))
+    lam = rs.uniform(0.5, 3.0, size=n) * spec["scale"]
+    lam[0] = -spec["delta"] * lam.max()
+    x = (Q * lam) @ Q.T
+    x = (x + x.T) / 2.0
+    G = rs.normal(size=(n, n))
+    return x, float(spec["delta"] * lam.max() * spec["sig_frac"]), G
+
+
+def jitter_reference(co, x, sigsq):
+    """independent replay of the documented search: (k = number of failed attempts, list of outcomes, jitter_k)"""
+    import scipy.linalg as spl
+    n = x.shape[0]
+    j0 = co.INITIAL_JITTER_FACTOR * max(1.0, float(np.mean(np.diag(x))))
+    ub = co.JITTER_UPPERBOUND_FACTOR * max(1.0, float(np.mean(np.diag(x))))
+    jitter, outcomes = 0.0, []
+    while jitter <= ub:
+        try:
+            spl.cholesky(x + np.diag(np.ones((n,)) * (sigsq + jitter)), lower=True)
+            outcomes.append(True)
+            return len(outcomes) - 1, outcomes, jitter, j0
+        except spl.LinAlgError:
+            outcomes.append(False)
+            jitter = j0 if jitter == 0.0 else jitter * co.JITTER_GROWTH
+    return None, outcomes, None, j0
+
+
+def check_jitter_forward(ctx, co, x, sigsq, out, case, where):
+    """(i) the forward value is x + (sigsq_init + jitter_k) I for the member jitter_k of the documented sequence at
+    which the Cholesky factorisation first succeeds. Returns (k, outcomes, jitter_k, j0)."""
+    k, outcomes, jit, j0 = jitter_reference(co, x, sigsq)
+    ctx.h("addjitter_failed_attempts_" + where, "none succeeded" if k is None else k)
+    if k is None:
+        return k, outcomes, jit, j0
+    n = x.shape[0]
+    want = x + np.diag(np.ones((n,)) * (sigsq + jit))
+    scale = max(1.0, float(np.abs(x).max()))
+    shift = float(np.mean(np.diag(out) - np.diag(x)))
+    if not np.allclose(out, want, rtol=0.0, atol=4e-16 * scale):
+        ctx.violation("property", "AddJitterOp (%s): after %d failed Cholesky attempts the result is x + %.6e * I (off-diagonal "
+                      "max deviation %.1e) but the documented value is x + (sigsq_init + jitter_%d) * I = x + %.6e * I "
+                      "(sigsq_init = %.3e, jitter sequence 0, %.3e, x10, ...)" % (
+                          where, k, shift, float(np.abs(out - np.diag(np.diag(out)) - (x - np.diag(np.diag(x)))).max()),
+                          k, sigsq + jit, sigsq, j0),
+                      case=case, signature=dict(function="AddJitterOp", defect="forward_not_x_plus_sigsq_plus_jitter_k",
+                                                retries=bool(k > 0)))
+    return k, outcomes, jit, j0
+
+
+def run_jitter_forced(ctx, specs):
+    import autograd
+    import autograd.numpy as anp
+    import syne_tune.optimizer.schedulers.searchers.bayesopt.gpautograd.custom_op as co
+    fcases = []
+    for spec in specs:
+        case = dict(kind="jitter", spec=spec)
+        x, sigsq, G = jitter_matrix(spec)
+        n = spec["n"]
+        inputs = np.append(x.reshape(-1), sigsq)
+        with warnings.catch_warnings():
+            warnings.simplefilter("ignore")
+            out = np.asarray(co.AddJitterOp(inputs.copy()))
+        k, outcomes, jit, j0 = check_jitter_forward(ctx, co, x, sigsq, out, case, "op")
+        ctx.count(("jitter", spec), nontrivial=bool(k))
+        if k is None:
+            continue
+        ctx.sample(dict(kind="AddJitterOp forced retries", n=n, sigsq_init=sigsq, failed_attempts=k, jitter=jit))
+        fcases.append(("(%s, %s, %s, %s, %s, %s, %s, %s)" % (
+            natlit(n), fmat(x), fl(sigsq), fl(j0), fl(co.JITTER_GROWTH), lst(["true" if o else "false" for o in outcomes]),
+            fmat(out), fl(4e-16 * max(1.0, float(np.abs(x).max())))), case))
+        # (ii) the op is affine while the number of failed attempts stays k: central differences of
+        # F = sum(G * AddJitterOp(.)) in sigsq_init and in entries of x against the vjp (and autograd's use of it)
+        vj = np.asarray(co.AddJitterOp_vjp(out, inputs)(G)).reshape(-1)
+        g_auto = np.asarray(autograd.grad(lambda v: anp.sum(G * co.AddJitterOp(v)))(inputs.copy())).reshape(-1)
+        if not np.allclose(g_auto, vj, rtol=1e-12, atol=1e-13):
+            ctx.violation("property", "autograd gradient through AddJitterOp differs from AddJitterOp_vjp", case=case,
+                          signature=dict(function="AddJitterOp_vjp", defect="not_registered"))
+        h = min(0.1 * sigsq, 0.01 * jit) if (k > 0 and sigsq > 0) else (0.01 * jit if k > 0 else 1e-7)
+        # entries of x: off-diagonal ones only (a diagonal entry moves mean(diag x) and with it the jitter sequence,
+        # a dependence the backward pass ignores by design)
+        offd = [a * n + b for a in range(n) for b in range(n) if a != b]
+        coords = [inputs.size - 1] + [int(c) for c in np.random.RandomState(spec["seed"] + 1).choice(offd, size=min(3, len(offd)), replace=False)]
+        for c in coords:
+            if h < 1e-13:
+                ctx.h("addjitter_fd", "step too small")
+                continue
+            vals, same_k = [], True
+            for sgn in (1.0, -1.0):
+                ip = inputs.copy()
+                ip[c] += sgn * h
+                xp = ip[:-1].reshape(n, n)
+                kk = jitter_reference(co, xp, float(ip[-1]))[0]
+                same_k = same_k and (kk == k)
+                with warnings.catch_warnings():
+                    warnings.simplefilter("ignore")
+                    vals.append(float(np.sum(G * np.asarray(co.AddJitterOp(ip)))))
+            if not same_k:
+                ctx.h("addjitter_fd", "retry count changes under the perturbation")
+                continue
+            fd = (vals[0] - vals[1]) / (2.0 * h)
+            Fmag = float(np.sum(np.abs(G) * np.abs(out)))
+            tolfd = 1e-6 * max(1.0, abs(vj[c])) + 20.0 * 2.3e-16 * Fmag / h
+            ctx.h("addjitter_fd", "checked")
+            if not abs(fd - vj[c]) <= tolfd:
+                ctx.violation("property", "AddJitterOp with %d failed Cholesky attempts: vjp component %s = %r but central differences "
+                              "(retry count held fixed, step %.2e) give %r" % (
+                                  k, "d/d sigsq_init" if c == inputs.size - 1 else "d/d x[%d]" % c, float(vj[c]), h, fd),
+                              case=case, signature=dict(function="AddJitterOp_vjp",
+                                                        component="sigsq_init" if c == inputs.size - 1 else "x",
+                                                        retries=bool(k > 0)))
+    if fcases:
+        for i in ctx.coq_bad_cases("jfwd", CHOL_IMPORTS, CHOL_PRELUDE, "chk_jfwd", [t for t, _ in fcases], shard=100):
+            ctx.violation("correspondence", "model f_addjitter_op (retry loop) differs from AddJitterOp", case=fcases[i][1],
+                          failing_input=False, broken="correspondence chk_jfwd (model/CholBackward.v f_addjitter_op)")
+
+
+def gen_gp_jitter_spec(rng):
+    return dict(seed=rng.randrange(10 ** 6), n=rng.choice([100, 150, 200, 300]), ard=rng.random() < 0.5,
+                scale=rng.choice([1e3, 1e3, 300.0]), inv_bw=rng.choice([1e-2, 1e-2, 3e-2]), noise=rng.choice([1e-9, 1e-9, 1e-8]))
+
+
+def run_gp_jitter(ctx, specs):
+    """GP fitting objective with all parameters inside their boxes but a numerically singular kernel matrix: the
+    AddJitterOp calls made by the real objective are recorded (harness-side wrapper around the exported op) and
+    checked against the documented forward form; value and gradient must be finite."""
+    from unittest import mock
+    from autograd.tracer import getval
+    import syne_tune.optimizer.schedulers.searchers.bayesopt.gpautograd.custom_op as co
+    import syne_tune.optimizer.schedulers.searchers.bayesopt.gpautograd.posterior_utils as pu
+    from syne_tune.optimizer.schedulers.searchers.bayesopt.gpautograd.likelihood import GaussianProcessMarginalLikelihood
+    from syne_tune.optimizer.schedulers.searchers.bayesopt.gpautograd.kernel import Matern52
+    from syne_tune.optimizer.schedulers.searchers.bayesopt.gpautograd.mean import ScalarMeanFunction
+    from syne_tune.optimizer.schedulers.searchers.bayesopt.gpautograd.optimization_utils import create_lbfgs_arguments, ParamVecDictConverter
+    if not hasattr(pu, "AddJitterOp"):
+        ctx.notes.append("posterior_utils no longer refers to AddJitterOp by that name: GP-level jitter recording skipped")
+        return
+    real = pu.AddJitterOp
+    for spec in specs:
+        case = dict(kind="gp_jitter", spec=spec)
+        rs = np.random.RandomState(spec["seed"])
+        n = spec["n"]
+        X = rs.uniform(size=(n, 2))
+        y = (np.sin(3.0 * X[:, 0]) + X[:, 1] + 0.05 * rs.normal(size=n)).reshape(-1, 1)
+        rec = []
+
+        def spy(inputs, *a, **kw):
+            out = real(inputs, *a, **kw)
+            rec.append((np.array(getval(inputs), dtype=float), np.array(getval(out), dtype=float)))
+            return out
+        with warnings.catch_warnings():
+            warnings.simplefilter("ignore")
+            lik = GaussianProcessMarginalLikelihood(kernel=Matern52(2, ARD=spec["ard"]), mean=ScalarMeanFunction())
+            lik.reset_params(np.random.RandomState(0))
+            data = {"features": X, "targets": y}
+            lik.on_fit_start(data)
+            params = lik.get_params()
+            for name in list(params):
+                if "inv_bw" in name:
+                    params[name] = spec["inv_bw"]
+            params["kernel_covariance_scale"], params["noise_variance"] = spec["scale"], spec["noise"]
+            lik.set_params(params)
+            obj, param_dict = create_lbfgs_arguments(criterion=lik, crit_args=[data])
+            v = np.array(ParamVecDictConverter(param_dict).to_vec(), dtype=float)
+            with mock.patch.object(pu, "AddJitterOp", spy):
+                f0, g = obj(v.copy())
+        ctx.count(("gp_jitter", spec), nontrivial=True)
+        if not (np.all(np.isfinite(np.asarray(g, dtype=float))) and np.isfinite(float(np.asarray(f0).reshape(-1)[0]))):
+            ctx.violation("property", "fitting objective in the jitter regime: value / gradient not finite", case=case,
+                          signature=dict(function="create_lbfgs_arguments objective", defect="not_finite", regime="jitter"))
+        for inp, out in rec:
+            m = out.shape[0]
+            check_jitter_forward(ctx, co, inp[:-1].reshape(m, m), float(inp[-1]), out, case, "gp")
+
+
+# --------------------------------------------------------------------------
 # real GP: acquisition functions through the posterior, and the fitting objective
 # --------------------------------------------------------------------------
 def gen_gp_tail_spec(rng):
@@ -794,19 +990,25 @@ BOXCOX_BRANCH_POINTS = [0.0, 5e-8, -5e-8, 1e-7, -1e-7, 1e-7 - 1e-12, -1e-7 + 1e-
 def gen_fit_spec(rng, k=None):
     spec = dict(seed=rng.randrange(10 ** 6), d=rng.choice([1, 2, 3]), n=rng.randint(2, 7), ard=rng.random() < 0.5,
                 mean=rng.choice(["scalar", "zero"]), transform=rng.choice(["none", "none", "boxcox"]),
-                warp=rng.random() < 0.25, lam=None, bound=None)
-    if k is not None and k < len(BOXCOX_BRANCH_POINTS):   # every run visits every branch point once
+                warp=rng.random() < 0.25, lam=None, bound=None,
+                encoding=rng.choice(["logarithm", "positive"]))
+    nb = len(BOXCOX_BRANCH_POINTS)
+    if k is not None and k < nb:   # every run visits every branch point once
         spec["transform"], spec["lam"] = "boxcox", BOXCOX_BRANCH_POINTS[k]
         spec["n"] = max(spec["n"], 3)
     elif spec["transform"] == "boxcox" and rng.random() < 0.4:
         spec["lam"] = rng.choice(BOXCOX_BRANCH_POINTS)
-    if rng.random() < 0.35:   # one bounded parameter (not the noise variance) exactly at a corner of its box
-        spec["bound"] = [rng.random(), rng.choice(["lo", "hi"])]
+    if k is not None and nb <= k < nb + 16:
+        # every run: both encodings, parameters exactly ON their bounds (where L-BFGS-B's projection puts them)
+        spec.update(encoding=["logarithm", "positive"][k % 2], ard=True, warp=(k % 4 >= 2), n=max(spec["n"], 3),
+                    bound=[[rng.random(), "hi" if k % 8 < 6 else "lo"] for _ in range(rng.randint(1, 3))])
+    elif rng.random() < 0.45:   # bounded parameters (not the noise variance) exactly at corners of their boxes
+        spec["bound"] = [[rng.random(), rng.choice(["lo", "hi"])] for _ in range(rng.randint(1, 3))]
     return spec
 
 
 def run_fit_objective(ctx, specs):
-    from syne_tune.optimizer.schedulers.searchers.bayesopt.gpautograd.gp_regression import GaussianProcessRegression
+    from syne_tune.optimizer.schedulers.searchers.bayesopt.gpautograd.likelihood import GaussianProcessMarginalLikelihood
     from syne_tune.optimizer.schedulers.searchers.bayesopt.gpautograd.kernel import Matern52
     from syne_tune.optimizer.schedulers.searchers.bayesopt.gpautograd.mean import ScalarMeanFunction, ZeroMeanFunction
     from syne_tune.optimizer.schedulers.searchers.bayesopt.gpautograd.target_transform import BoxCoxTargetTransform
@@ -819,15 +1021,17 @@ def run_fit_objective(ctx, specs):
         d, n = spec["d"], spec["n"]
         X = rs.uniform(size=(n, d))
         y = np.exp(0.5 * rs.normal(size=(n, 1))) + 0.1
-        kernel = Matern52(d, ARD=spec["ard"])
+        enc = spec.get("encoding", "logarithm")
+        kernel = Matern52(d, ARD=spec["ard"], encoding_type=enc)
         if spec["warp"]:
-            kernel = WarpedKernel(kernel=kernel, warpings=[Warping(dimension=d, coordinate_range=(0, d))])
+            kernel = WarpedKernel(kernel=kernel, warpings=[Warping(dimension=d, coordinate_range=(0, d), encoding_type=enc)])
         with warnings.catch_warnings():
             warnings.simplefilter("ignore")
-            model = GaussianProcessRegression(
+            lik = GaussianProcessMarginalLikelihood(
                 kernel=kernel, mean=ScalarMeanFunction() if spec["mean"] == "scalar" else ZeroMeanFunction(),
-                target_transform=BoxCoxTargetTransform() if spec["transform"] == "boxcox" else None)
-            lik = model.likelihood
+                target_transform=BoxCoxTargetTransform() if spec["transform"] == "boxcox" else None,
+                encoding_type=enc)
+            lik.reset_params(np.random.RandomState(spec["seed"] % 1000))
             data = {"features": X, "targets": y}
             lik.on_fit_start(data)
             obj, param_dict = create_lbfgs_arguments(criterion=lik, crit_args=[data])
@@ -856,15 +1060,33 @@ def run_fit_objective(ctx, specs):
                             v[i] = float(spec["lam"])
                             placed.append(int(i))
                             ctx.h("fit_boxcox_lambda_at", repr(float(spec["lam"])))
-            if spec.get("bound"):
-                elig = [(int(i), bounds[name]) for name in conv.names for i in conv.name_to_index[name]
-                        if "noise_variance" not in name and int(i) not in placed
-                        and bounds.get(name, (None, None))[0] is not None and bounds.get(name, (None, None))[1] is not None]
+            on_bound = {}
+            for i in placed:
+                if float(v[i]) in (-1.0, 2.0):
+                    on_bound[i] = "lo" if float(v[i]) == -1.0 else "hi"
+            bl = spec.get("bound") or []
+            if bl and not isinstance(bl[0], (list, tuple)):
+                bl = [bl]
+            for r, side in bl:
+                # (coordinate, side) pairs that have a finite bound; the softrelu encoding overflows beyond ~709,
+                # the noise variance at its lower bound is the jitter regime (separate stream)
+                elig = []
+                for name in conv.names:
+                    if "noise_variance" in name:
+                        continue
+                    lo, hi = bounds.get(name, (None, None))
+                    for i in conv.name_to_index[name]:
+                        if int(i) in placed or int(i) in on_bound:
+                            continue
+                        for sd, b in (("lo", lo), ("hi", hi)):
+                            if b is not None and sd == side and abs(float(b)) <= 700.0:
+                                elig.append((int(i), sd, float(b), name))
                 if elig:
-                    i, (lo, hi) = elig[int(spec["bound"][0] * len(elig)) % len(elig)]
-                    v[i] = float(lo) if spec["bound"][1] == "lo" else float(hi)
-                    pn = [nm for nm in conv.names if i in list(conv.name_to_index[nm])][0]
-                    ctx.h("fit_param_at_box_corner", pn.split("_", 1)[-1] + ":" + spec["bound"][1])
+                    i, sd, b, name = elig[int(r * len(elig)) % len(elig)]
+                    v[i] = b
+                    on_bound[i] = sd
+                    ctx.h("fit_param_on_bound", "%s/%s:%s" % (enc, name.split("_", 1)[-1], sd))
+            ctx.h("fit_encoding", enc)
 
             def val(vec):
                 return float(np.asarray(obj(np.array(vec, dtype=float))[0]).reshape(-1)[0])
@@ -883,16 +1105,36 @@ def run_fit_objective(ctx, specs):
                     vv = v.copy()
                     vv[i] = t
                     return val(vv)
-                fd = richardson(f, float(v[i]), 1e-4 * max(1.0, abs(v[i])))
-                if not abs(fd - g[i]) <= 1e-5 * max(1.0, abs(g[i]), abs(fd), abs(f0)):
+                def estimate(step):
+                    if i in on_bound:
+                        # exactly on a bound: one-sided 5-point difference pointing INTO the box (what L-BFGS-B can see)
+                        sgn = 1.0 if on_bound[i] == "lo" else -1.0
+                        fs = [f(float(v[i]) + sgn * kk * step) for kk in range(5)]
+                        return sgn * (-25.0 * fs[0] + 48.0 * fs[1] - 36.0 * fs[2] + 16.0 * fs[3] - 3.0 * fs[4]) / (12.0 * step)
+                    return richardson(f, float(v[i]), step)
+                h0 = (2e-4 if i in on_bound else 1e-4) * max(1.0, abs(v[i]))
+                fd, fd_coarse = estimate(h0), estimate(2.0 * h0)
+                # the two step sizes disagree by the truncation + round-off error of the estimate itself (large when a
+                # parameter at a corner of its box makes the kernel matrix ill-conditioned): widen the tolerance by it
+                fd_err = abs(fd - fd_coarse)
+                if fd_err > 0.05 * max(abs(fd), abs(g[i]), 1e-300):
+                    ctx.h("fit_fd", "inconclusive (finite differences too noisy)")
+                    continue
+                ctx.h("fit_fd", "one-sided" if i in on_bound else "central")
+                if not abs(fd - g[i]) <= 1e-5 * max(1.0, abs(g[i]), abs(fd), abs(f0)) + 20.0 * fd_err:
                     pname = [nm for nm in conv.names if i in list(conv.name_to_index[nm])]
                     sg = dict(sig, defect="parameter_gradient", parameter=(pname or ["?"])[0].split("_", 1)[-1])
                     if i in placed:   # where the Box-Cox parameter sits relative to the code's case distinction
                         a = abs(float(v[i]))
                         sg["boxcox_lambda_region"] = ("abs_eq_eps" if a == 1e-7 else "abs_lt_eps" if a < 1e-7 else
                                                       "box_corner" if a in (1.0, 2.0) else "abs_gt_eps")
-                    ctx.violation("property", "fitting objective: gradient[%d] (%s) = %r at parameter value %r but central "
-                                  "differences of the objective value give %r" % (i, pname, float(g[i]), float(v[i]), fd),
+                    if i in on_bound:
+                        sg["on_bound"], sg["encoding"] = on_bound[i], enc
+                    ctx.violation("property", "fitting objective (%s encoding): gradient[%d] (%s) = %r at parameter value %r%s but "
+                                  "%s differences of the objective value give %r" % (
+                                      enc, i, pname, float(g[i]), float(v[i]),
+                                      " (exactly on its %s bound)" % on_bound[i] if i in on_bound else "",
+                                      "one-sided (into the box)" if i in on_bound else "central", fd),
                                   case=case, signature=sg)
 
 
@@ -901,14 +1143,18 @@ def run(ctx, replay=None):
                 "(mean, std, cost / constraint) fantasy arrays (nf 1..5, broadcasting both ways, clamped std/cost, "
                 "infeasible columns), compute_acq vs compute_acq_with_gradient vs PrimFloat model; (b) "
                 "cholesky_factorization_backward / AddJitterOp_vjp on random lower-triangular L (n 1..6) vs the "
-                "executable model; head and GP cases include inputs many predictive standard deviations worse than the "
+                "executable model; (b2) AddJitterOp on slightly indefinite symmetric matrices (smallest eigenvalue -1e-10..-1e-6 "
+                "relative, tiny sigsq_init) so that the retry loop runs, and GP objectives with a numerically singular kernel "
+                "matrix: forward = x + (sigsq_init + jitter_k) I for the documented jitter_k, vs the model's loop, and central "
+                "differences with the retry count held fixed vs the vjp; head and GP cases include inputs many predictive standard deviations worse than the "
                 "incumbent (u down to -12 / -30), EI >= 0 checked exactly and EI / dh/dmean RELATIVELY (1e-6) against the "
                 "tail-accurate closed form; (c) the same acquisition classes on tiny fitted GPs, with the default predictor and "
                 "with an explicit predictor= argument (a second fitted surrogate), (a2) the same on locally linear "
                 "stub predictors with exact Jacobians, and (d) the scipy fitting objective at random interior points, "
                 "at every branch point of the Box-Cox case distinction (lambda in {0, +-5e-8, +-1e-7 +- 1e-12, ...}, "
                 "box corners -1, 2) and with one parameter at a corner of its box; gradients vs Richardson central "
-                "differences (step 1e-4, wider than the branch). Non-trivial = a head case with more than "
+                "differences (step 1e-4, wider than the branch); both parameter encodings (logarithm, positive/softrelu) with "
+                "parameters exactly ON their bounds, checked with one-sided differences pointing into the box. Non-trivial = a head case with more than "
                 "one fantasy column or a second output model; a Cholesky case with n >= 2; a GP case with pending "
                 "candidates and nf > 1; a fitting case with n >= 3; distinct by content hash")
     rng = ctx.rng
@@ -925,12 +1171,18 @@ def run(ctx, replay=None):
             run_fit_objective(ctx, [replay["spec"]])
         elif kind == "linear":
             run_linear_explicit(ctx, [replay["spec"]])
+        elif kind == "jitter":
+            run_jitter_forced(ctx, [replay["spec"]])
+        elif kind == "gp_jitter":
+            run_gp_jitter(ctx, [replay["spec"]])
         return
     n_head = ctx.n(250, 2500)
     specs = [gen_head_spec(rng, head) for head in ("ei", "lcb", "eipu", "cei") for _ in range(n_head)]
     specs += [gen_head_spec(rng, head, tail=True) for head in ("ei", "eipu", "cei") for _ in range(ctx.n(60, 800))]
     run_heads(ctx, specs)
     run_chol(ctx, [gen_chol_spec(rng) for _ in range(ctx.n(200, 2000))])
+    run_jitter_forced(ctx, [gen_jitter_spec(rng) for _ in range(ctx.n(100, 1500))])
+    run_gp_jitter(ctx, [gen_gp_jitter_spec(rng) for _ in range(ctx.n(6, 40))])
     run_gp_acq(ctx, [gen_gp_spec(rng) for _ in range(ctx.n(120, 1200))] +
                [gen_gp_tail_spec(rng) for _ in range(ctx.n(40, 400))])
     run_linear_explicit(ctx, [gen_linear_spec(rng) for _ in range(ctx.n(150, 2000))])
